@@ -484,9 +484,17 @@ func ResolveExternalLocation(
 		// Check for redirect loops
 		_, hasLocation := metaGet(recMeta, MetaLocation)
 		if hasLocation && rec.NumRows() == 0 {
+			if resolvedBatch != nil {
+				resolvedBatch.Release()
+			}
 			return batch, meta, fmt.Errorf("external location redirect loop detected")
 		}
 		rec.Retain()
+		// The last data batch of the fetched stream is the resolved one: drop the
+		// reference taken on an earlier batch, or it is never released.
+		if resolvedBatch != nil {
+			resolvedBatch.Release()
+		}
 		resolvedBatch = rec
 	}
 
